@@ -9,7 +9,7 @@ use crate::args::ArgFromValue;
 use crate::errors::{Error, ReportError, TeraResult};
 use crate::filters::{Filter, StoredFilter};
 use crate::functions::{Function, StoredFunction};
-use crate::template::{Template, check_include_cycles, find_parents};
+use crate::template::{Template, check_include_cycles, find_block_cycle, find_parents};
 use crate::tests::{StoredTest, Test, TestResult};
 use crate::value::FunctionResult;
 use crate::value::Value;
@@ -710,6 +710,20 @@ impl Tera {
                         child_blocks.entry(block_name).or_insert(lineage);
                     }
                 }
+            }
+        }
+
+        // A block must not end up rendering itself (blocks nested in another order by a child and
+        // reached again through `super()`): rendering it would recurse until the stack overflows
+        for (name, blocks) in &tpl_blocks {
+            if let Some(block_name) = find_block_cycle(blocks) {
+                errors.push((
+                    &self.templates[name].name,
+                    0,
+                    format!(
+                        "Block `{block_name}` ends up rendering itself in template `{name}` through nested blocks and `super()`"
+                    ),
+                ));
             }
         }
 
